@@ -85,7 +85,7 @@ CHECKS = {
     "C06": dict(
         level="model_checking",
         clauses=GEN_CLAUSES_SPEC | {"errclass"},
-        phases=dict(quick=[dict(kind="joinnames"), dict(kind="flatjoin", pre=2), dict(profile="join2"), dict(profile="joins3"), dict(profile="joinh4")],
+        phases=dict(quick=[dict(kind="joinnames"), dict(kind="argspace", verbs=["joinrows"]), dict(kind="flatjoin", pre=2), dict(profile="join2"), dict(profile="joins3"), dict(profile="joinh4")],
                     thorough=[dict(kind="joinnames", lu=["a", "b", "a_t2", "b_t2", "a_t2_1", "b_t2_1", "a_t2_2", "a_x"], ru=["a", "b", "c", "a_t2", "b_t2"]),
                               dict(kind="flatjoin", pre=3, pairs=[(1, 2), (6, 2), (7, 2)]), dict(profile="join2"), dict(profile="join3"), dict(profile="joins4"), dict(profile="joinh4")]),
     ),
